@@ -1,5 +1,28 @@
 """C10 — cubic polynomial solver (E2): exact special cases and the Cardano one-real-root branch."""
+import os
+
 from engines.symvc.discharge import run_spec
+from engines.cbmcc.run import Job, run_jobs
+
+F = "include/TFEL/Math/General/CubicRoots.hxx"
+NUMLIM = [{"name": "numeric_limits<T>::min()", "re": r"std::numeric_limits<T>::min\(\)", "sub": "DBL_MIN"},
+          {"name": "numeric_limits<T>::epsilon()", "re": r"std::numeric_limits<T>::epsilon\(\)", "sub": "DBL_EPSILON"}]
+BODIES = [
+    dict(name="f_lambda", file=F, pattern=r"auto f = \[&a3, &a2, &a1, &a0\]\(const T x\)"),
+    dict(name="df_lambda", file=F, pattern=r"auto df = \[&a3, &a2, &a1\]\(const T x\)"),
+    dict(name="improve", file=F, pattern=r"static void improve\(\s*T& vp, const T a3, const T a2, const T a1, const T a0\)", rules=[
+        {"name": "alias dropped", "re": r"using integer = unsigned short;", "sub": "", "min": 1, "max": 1},
+        {"name": "drop the f lambda definition (extracted as a function)", "drop_block": r"auto f = \[&a3, &a2, &a1, &a0\]\(const T x\) \{", "min": 1},
+        {"name": "drop the df lambda definition (extracted as a function)", "drop_block": r"auto df = \[&a3, &a2, &a1\]\(const T x\) \{", "min": 1},
+        {"name": "calls of f", "re": r"(?<![\w_])f\((\w+)\)", "sub": r"f_rec(\1, a3, a2, a1, a0)", "min": 4},
+        {"name": "calls of df", "re": r"(?<![\w_])df\((\w+)\)", "sub": r"df_lambda(\1, a3, a2, a1)", "min": 2},
+        {"name": "value-initialised counter", "re": r"auto iter = integer\{\};", "sub": "integer iter = 0;", "min": 1, "max": 1},
+        {"name": "typed constant", "re": r"constexpr integer iter_max = 50;", "sub": "const integer iter_max = 50;", "min": 1, "max": 1},
+        {"name": "loop contract of the Newton loop", "re": r"while \(\(tfel::math::abs\(x1 - x\) > prec\) && \(iter < iter_max\)\) \{",
+         "sub": ("while ((tfel_math_abs(x1 - x) > prec) && (iter < iter_max))\n  __CPROVER_assigns(x, x1, dfv, iter, g_arg1, g_val1, g_arg2, g_val2)\n"
+                 "  __CPROVER_loop_invariant(iter <= iter_max)\n  __CPROVER_decreases(iter_max - iter)\n  {"), "min": 1, "max": 1},
+    ] + NUMLIM + [{"name": "no lambda may remain", "forbid": r"\[&"}]),
+]
 
 
 def run(ctx):
@@ -7,3 +30,9 @@ def run(ctx):
                "cos/sin/atan2 are uninterpreted: the three-distinct-real-roots (trigonometric) branch is out of reach and not claimed; nor is `improve` (floating-point Newton refinement)",
                "accuracy for multiple roots is a rounding statement: only the exact-arithmetic root property is proved")
     run_spec(ctx, expect_min=8)
+    # E1 part: the optional Newton refinement
+    ctx.assume("CubicRoots::improve (E1, doubles bit-precise): 'the residual' is |P(x)| evaluated by Horner's scheme in double arithmetic, as the code evaluates it; the Newton iterates themselves are abstracted by the loop contract (any doubles)")
+    tpl = os.path.join(ctx.spec_dir, "improve.c.in")
+    ctx.assume("composition (paper lemma): improve's contract speaks of the code's own evaluations of the residual, f_lambda's contract identifies them with |P|; together: the refinement never increases the residual")
+    run_jobs(ctx, [Job("f_lambda", tpl, bodies=BODIES, harness="h_f_lambda", needs=["f_lambda"], min_obligations=1, vacuity=False, backend="--cvc5", drop_checks=["--conversion-check"]),
+                   Job("improve", tpl, bodies=BODIES, enforce="improve", loop_contracts=True, min_obligations=1, drop_checks=["--conversion-check"])])
